@@ -90,6 +90,9 @@ impl Options {
 ///
 /// This will block until the compactor is fully finished.
 pub fn do_compaction(opts: &Options) -> crate::Result<()> {
+    #[cfg(feature = "verif_hooks")]
+    crate::verif_api::point("compact_choose");
+
     #[expect(clippy::expect_used, reason = "lock is expected to not be poisoned")]
     let compaction_state = opts.compaction_state.lock().expect("lock is poisoned");
 
@@ -487,6 +490,9 @@ fn merge_tables(
     // IMPORTANT: Unlock exclusive compaction lock as we are now doing the actual (CPU-intensive) compaction
     drop(compaction_state);
 
+    #[cfg(feature = "verif_hooks")]
+    crate::verif_api::point("compact_merge");
+
     hidden_guard(payload, opts, || {
         for (idx, item) in merge_iter.enumerate() {
             let item = item?;
@@ -505,6 +511,9 @@ fn merge_tables(
     if let Some(filter) = compaction_filter {
         filter.finish();
     }
+
+    #[cfg(feature = "verif_hooks")]
+    crate::verif_api::point("compact_commit");
 
     #[expect(clippy::expect_used, reason = "lock is expected to not be poisoned")]
     let mut compaction_state = opts.compaction_state.lock().expect("lock is poisoned");
